@@ -19,14 +19,15 @@ def text_specs(draw, kind, max_states=4):
         return draw(G.nfa_specs(max_states=max_states, max_sigma=2, eps_choices=PRINTABLE_EPS + ["eps", "lambda"], pool=pool))
     if kind == "pda":
         return draw(GP.pda_specs(max_states=max_states, max_trans=6, eps_choices=PRINTABLE_EPS, min_trans=0, pool=pool))
-    spec = draw(GT.tm_specs(max_states=max_states, halting_initial=True, pool=pool))
+    spec = draw(GT.tm_specs(max_states=max_states, halting_initial=True, pool=pool, halting_moves=True))
     k = draw(st.integers(0, 2))
     if k == 0:
         # default names for the halting states, as in the shipped examples
         m = {spec["acc"]: "accept", spec["rej"]: "reject"}
         if "accept" not in spec["Q"] and "reject" not in spec["Q"]:
             r = lambda q: m.get(q, q)
-            spec = dict(spec, Q=[r(q) for q in spec["Q"]], d=[[r(p), a, r(q), b, mv] for p, a, q, b, mv in spec["d"]], q0=r(spec["q0"]), acc="accept", rej="reject")
+            # a line that starts with a keyword of the format itself is a declaration: the states 'accept' and 'reject' cannot be the source of a written transition
+            spec = dict(spec, Q=[r(q) for q in spec["Q"]], d=[[r(p), a, r(q), b, mv] for p, a, q, b, mv in spec["d"] if p not in m], q0=r(spec["q0"]), acc="accept", rej="reject")
     if k == 1 and spec["S"]:
         spec = dict(spec, S=[])       # empty input alphabet with non-blank tape symbols
     return spec
